@@ -388,9 +388,10 @@ func cmdWalk(args []string) {
 	every := fs.Int("every", 1, "use every n-th tour")
 	only := fs.Int("only", 0, "only this tour index (replay)")
 	maxExtra := fs.Int("maxextra", 1, "page sizes 1..entries+maxextra")
+	keys := fs.String("keys", "plain", "plain|rich|rich2: concretization of the keys")
 	fs.Parse(args)
 
-	cfg := &RunCfg{Systems: strings.Split(*systems, ","), Opts: parseOpts(*opts), Seed: *seed}
+	cfg := &RunCfg{Systems: strings.Split(*systems, ","), Opts: parseOpts(*opts), Seed: *seed, KeyModes: parseKeyModes(*keys)}
 	tf, err := os.Create(*trace)
 	if err != nil {
 		fmt.Fprintln(os.Stderr, err)
@@ -477,6 +478,9 @@ func walkOne(cfg *RunCfg, sysName string, idx int, t *walkTour, kind string, max
 	defer sys.Close()
 	conc := NewConc(cfg.Seed, int64(idx), false)
 	conc.small = true
+	if len(cfg.KeyModes) > 0 {
+		conc.keyMode = cfg.KeyModes[0]
+	}
 	x := NewExec(sys, conc)
 	w := &walker{x: x, tour: idx}
 	n := len(t.H)
